@@ -316,6 +316,44 @@ pub fn run(tier: Tier) -> Run {
         run.add_all(v);
         run.outcome(o, 1);
     }
+    // ---- independence: loading / assembling / disassembling A first must not change what B gives afterwards
+    //      (state left behind by an earlier load: caches, statics, thread-locals)
+    {
+        use rspirv::binary::Disassemble;
+        let picks: Vec<&Case> = cs.iter().step_by(cs.len() / 90 + 1).collect();
+        let observe = |c: &Case| -> String {
+            let mut words = model::header(c.version, 0x0007_0001, c.bound);
+            match &c.raw {
+                Some(r) => words.extend(r),
+                None => {
+                    for i in &c.insts {
+                        words.extend(enc(i));
+                    }
+                }
+            }
+            match guarded(|| dr::load_words(&words).map(|m| (m.assemble(), m.disassemble()))) {
+                Ok(Ok((a, d))) => format!("{:?}|{}", a, d),
+                Ok(Err(e)) => format!("err {}", e),
+                Err(p) => format!("panic {}", p),
+            }
+        };
+        let alone: Vec<String> = picks.iter().map(|c| observe(c)).collect();
+        let res: Vec<Option<Viol>> = picks
+            .par_iter()
+            .map(|a| {
+                for (j, b) in picks.iter().enumerate() {
+                    let _ = observe(a);
+                    let after = observe(b);
+                    if after != alone[j] {
+                        return Some(viol("C01:independence", format!("loading case {} gives a different result after loading case {} first", b.id, a.id), json!({"kind": "c01-pair", "first": a.id, "second": b.id})));
+                    }
+                }
+                None
+            })
+            .collect();
+        run.add_all(res.into_iter().flatten());
+        run.outcome("independence_pairs", (picks.len() * picks.len()) as u64);
+    }
     // U-seq: streamed, parallel over the first two symbols
     let l = tier.pick(5, 6);
     let ns = SYMBOLS.len() as u8;
